@@ -181,7 +181,8 @@ func scnActor(ctx *check.JobCtx) {
 	victimsTx := []string{a.gw.Acct.Addr.String(), a.gw.HotKeys[0].Addr.String(), a.sps[0].Acct.Addr.String(), a.sps[1].Acct.Addr.String(), a.owner.Pay.Addr.String(), a.sowner.Pay.Addr.String()}
 	w.CreateNode(att)
 	w.AddVstorage(att, 50_000_000)
-	w.ResetNode(att, world.StatusAll, victimsTx, "")
+	// the attacker's node declares the victims' addresses AND its own second account as its transaction addresses
+	w.ResetNode(att, world.StatusAll, append(append([]string{}, victimsTx...), att2.Addr.String()), "")
 	// the first victim provider lists its own account next to a delegate; the second lists only a delegate
 	spHot := w.Acct("pay-ro")
 	w.ResetNode(a.sps[0].Acct, world.StatusAll, []string{a.sps[0].Acct.Addr.String(), spHot.Addr.String()}, "")
@@ -263,7 +264,7 @@ func scnActor(ctx *check.JobCtx) {
 			// what remains is a signer acting on its own node while others must stay untouched:
 			w.Deliver("claim", signer, adv("claim/"+sname), nodetypes.NewMsgClaimReward(signer.Addr.String()))
 			w.Deliver("remove-vstorage", signer, adv("remove-vstorage/"+sname), nodetypes.NewMsgRemoveVstorage(signer.Addr.String(), 1_000_000))
-			w.Deliver("node-reset", signer, adv("reset/"+sname), &nodetypes.MsgReset{Creator: signer.Addr.String(), Status: world.StatusAll, TxAddresses: victimsTx})
+			w.Deliver("node-reset", signer, adv("reset/"+sname), &nodetypes.MsgReset{Creator: signer.Addr.String(), Status: world.StatusAll, TxAddresses: append(append([]string{}, victimsTx...), att2.Addr.String())})
 		}
 		// legitimate controls: the rightful actors succeed
 		if _, ok := w.Cur.Orders[pending]; ok {
